@@ -99,7 +99,11 @@ func runC08(s *Sim) {
 	if t.Bool("pre-write", 2, 3) {
 		n := Pick(t, "pre-n", 1, 3, 6)
 		for i := 0; i < n; i++ {
-			op := s.Start(2, y.writeOp(c.up, 2, dataID(i%2), []int{16, 40}))
+			sizes := []int{16, 40}
+			if t.Bool("pre-write-empty", 1, 5) {
+				sizes = nil // a write without data points is legal and leaves nothing behind
+			}
+			op := s.Start(2, y.writeOp(c.up, 2, dataID(i%2), sizes))
 			s.Wait()
 			y.flushLinks()
 			if !op.harvested {
@@ -303,7 +307,7 @@ func runC08(s *Sim) {
 		if behaviour == "misaddress-spontaneous" && !spontaneousDone && s.Now()-t0 >= 100*time.Millisecond {
 			spontaneousDone = true
 			for _, ll := range y.aliveLinks() {
-				spontaneousMisaddressed(s, ll, c.dn.B.Alias, t.Choose("spont-kind", 5))
+				spontaneousMisaddressed(s, ll, c.dn.B.Alias, t.Choose("spont-kind", 7))
 			}
 			s.Stat("fault.spontaneous-misaddressed")
 		}
@@ -425,14 +429,24 @@ func runC08(s *Sim) {
 	// ---- probe sequence: the connection's dispatching must still work ----
 	if y.CloseOp == nil && !s.AnyBusy() {
 		probes := []string{"OpenUpstream", "SendMetadata", "OpenDownstream"}
+		if c.dn.CloseOp == nil && c.dn.D != nil {
+			// two reads first: they return a chunk, an error or their deadline, and leave no lock behind
+			probes = append([]string{"ReadDataPoints", "ReadDataPoints"}, probes...)
+		}
 		for _, pk := range probes {
 			op := c.mkOp(pk)
 			op.CtxKind, op.Timeout = "deadline", 20*time.Second
+			if pk == "ReadDataPoints" {
+				op.Timeout = time.Second
+			}
 			s.Start(2, op)
 			y.PumpUntil(func() bool { return op.harvested }, time.Second, 25*time.Second)
 			if !op.harvested {
 				s.Violate("C08.dispatcher-dead", "probe:"+pk, "after target=%s behaviour=%s: probe %s with a 20 s deadline does not return although the broker answers everything (lock never released or dispatcher dead)", kind, behaviour, pk)
 				break
+			}
+			if pk == "ReadDataPoints" {
+				continue // any outcome within the deadline is fine
 			}
 			if op.Err != nil {
 				s.Violate("C08.probe-failed", "probe:"+pk+":"+errClass(op.Err), "after target=%s behaviour=%s: probe %s fails with %q although the broker answers everything", kind, behaviour, pk, errString(op.Err))
@@ -582,6 +596,9 @@ func spontaneousMisaddressed(s *Sim, l *Link, downAlias uint32, kind int) {
 		l.push(&message.DownstreamChunk{StreamIDAlias: 4242, UpstreamOrAlias: &info, StreamChunk: &message.StreamChunk{SequenceNumber: 1}})
 	case 3: // upstream ack for an unknown alias
 		l.push(&message.UpstreamChunkAck{StreamIDAlias: 4242, Results: []*message.UpstreamChunkResult{{SequenceNumber: 1, ResultCode: message.ResultCodeSucceeded}}})
+	case 5: // chunk for the live downstream that names an upstream alias the client never announced
+		l.push(&message.DownstreamChunk{StreamIDAlias: downAlias, UpstreamOrAlias: message.UpstreamAlias(4242), StreamChunk: &message.StreamChunk{SequenceNumber: 1,
+			DataPointGroups: []*message.DataPointGroup{{DataIDOrAlias: &message.DataID{Name: "n", Type: "t"}, DataPoints: []*message.DataPoint{{Payload: []byte("x")}}}}}})
 	default: // call ack / reply for unknown ids
 		l.push(&message.UpstreamCallAck{CallID: "ghost-call", ResultCode: message.ResultCodeSucceeded})
 		l.push(&message.DownstreamCall{CallID: "ghost-reply", RequestCallID: "ghost-call", SourceNodeID: "ghost"})
